@@ -321,7 +321,6 @@ func ruleP4(c *Ctx, id string) {
 	}
 }
 
-
 // scanBound finds, in a directory scanner, the offset variable (a phi stepped
 // by DIRENTSZ) and the loop's bound test "off < dip.Size" (dip = first parameter).
 func scanBound(c *Ctx, s *ssa.Function) (*loopVar, *Branch) {
